@@ -42,4 +42,36 @@ theorem src_round_rs_impl_DurationRound_for_DateTime : C17_src_round_rs_impl_Dur
 theorem src_round_rs_type_RoundingError : C17_src_round_rs_type_RoundingError =
     ["DurationExceedsTimestamp", "DurationExceedsLimit", "TimestampExceedsLimit", "§", "v1", "Display", "for", "RoundingError", "fmt(", "&", "self", "v2", "&", "v1", "Formatter", "->", "v1", "Result", "match", "*", "self", "RoundingError", "DurationExceedsTimestamp", "=>", "write!(", "v2", "\"…\"", "RoundingError", "DurationExceedsLimit", "=>", "write!(", "v2", "\"…\"", "RoundingError", "TimestampExceedsLimit", "=>", "write!(", "v2", "\"…\"", "§", "v1", "v2", "Error", "for", "RoundingError", "description(", "&", "self", "->", "&", "str", "\"…\""] := by decide +kernel
 
+/-- callee src/datetime/mod.rs:fn from_naive_utc_and_offset -/
+theorem callee_src_datetime_mod_rs_fn_from_naive_utc_and_offset : C17_callee_src_datetime_mod_rs_fn_from_naive_utc_and_offset =
+    ["v1", "NaiveDateTime", "v2", "Tz", "Offset", "->", "DateTime", "<", "Tz", ">", "DateTime", "v1", "v2"] := by decide +kernel
+
+/-- callee src/datetime/mod.rs:fn overflowing_naive_local -/
+theorem callee_src_datetime_mod_rs_fn_overflowing_naive_local : C17_callee_src_datetime_mod_rs_fn_overflowing_naive_local =
+    ["&", "self", "->", "NaiveDateTime", "self", "v1", "overflowing_add_offset(", "self", "v2", "fix("] := by decide +kernel
+
+/-- callee src/naive/datetime/mod.rs:fn and_utc -/
+theorem callee_src_naive_datetime_mod_rs_fn_and_utc : C17_callee_src_naive_datetime_mod_rs_fn_and_utc =
+    ["&", "self", "->", "DateTime", "<", "Utc", ">", "DateTime", "from_naive_utc_and_offset(", "*", "self", "Utc"] := by decide +kernel
+
+/-- callee src/time_delta.rs:fn div_mod_floor_64 -/
+theorem callee_src_time_delta_rs_fn_div_mod_floor_64 : C17_callee_src_time_delta_rs_fn_div_mod_floor_64 =
+    ["v1", "i64", "v2", "i64", "->", "i64", "i64", "v1", "div_euclid(", "v2", "v1", "rem_euclid(", "v2"] := by decide +kernel
+
+/-- callee src/time_delta.rs:fn nanoseconds -/
+theorem callee_src_time_delta_rs_fn_nanoseconds : C17_callee_src_time_delta_rs_fn_nanoseconds =
+    ["v1", "i64", "->", "TimeDelta", "let(", "v2", "v1", "div_mod_floor_64(", "v1", "NANOS_PER_SEC", "as", "i64", "TimeDelta", "v2", "v1", "v1", "as", "i32"] := by decide +kernel
+
+/-- callee src/time_delta.rs:fn num_nanoseconds -/
+theorem callee_src_time_delta_rs_fn_num_nanoseconds : C17_callee_src_time_delta_rs_fn_num_nanoseconds =
+    ["&", "self", "->", "Option", "<", "i64", ">", "v1", "try_opt!(", "self", "num_seconds(", "checked_mul(", "NANOS_PER_SEC", "as", "i64", "v2", "self", "subsec_nanos(", "v1", "checked_add(", "v2", "as", "i64"] := by decide +kernel
+
+/-- callee src/time_delta.rs:fn num_seconds -/
+theorem callee_src_time_delta_rs_fn_num_seconds : C17_callee_src_time_delta_rs_fn_num_seconds =
+    ["&", "self", "->", "i64", "if", "self", "v1", "<", "0", "&&", "self", "v2", ">", "0", "self", "v1", "+", "1", "else", "self", "v1"] := by decide +kernel
+
+/-- callee src/time_delta.rs:fn subsec_nanos -/
+theorem callee_src_time_delta_rs_fn_subsec_nanos : C17_callee_src_time_delta_rs_fn_subsec_nanos =
+    ["&", "self", "->", "i32", "if", "self", "v1", "<", "0", "&&", "self", "v2", ">", "0", "self", "v2", "-", "NANOS_PER_SEC", "else", "self", "v2"] := by decide +kernel
+
 end Chrono.Pins.C17
